@@ -319,6 +319,18 @@ class Driver(GenericAdapter):
             for a, b in reversed(raw):
                 rev.add(a, b)
             e("reordered_omd", rev)
+            plus = self.cls()
+            for a, b in raw + [(raw[0][0] if raw else K(1), ("one", "more"))]:
+                plus.add(a, b)
+            e("plus_one_omd", plus)
+            minus = self.cls()
+            for a, b in raw[:-1]:
+                minus.add(a, b)
+            e("minus_one_omd", minus)
+            dvo = self.cls()
+            for i, (a, b) in enumerate(raw):
+                dvo.add(a, ("changed",) if i == 0 else b)
+            e("diffval_omd", dvo)
             vis = {}
             for a, b in raw:
                 vis[a] = b
@@ -435,7 +447,7 @@ def sanitize(traces):
         out["todict_t"] = v if isinstance(v, list) and all(isinstance(p, list) and len(p) == 2 and isinstance(p[0], int) and isinstance(p[1], list) for p in v) else [[-7, [-7]]]
         eq = o.get("eq") or {}
         out["eq"] = {k: (eq.get(k) if isinstance(eq.get(k), bool) else (k == "extra_key_dict"))   # flipped = never matches
-                     for k in ("same_omd", "reordered_omd", "same_dict", "diffval_dict", "missing_key_dict", "extra_key_dict", "non_mapping")}
+                     for k in ("same_omd", "reordered_omd", "plus_one_omd", "minus_one_omd", "diffval_omd", "same_dict", "diffval_dict", "missing_key_dict", "extra_key_dict", "non_mapping")}
         if not all(isinstance(eq.get(k), bool) for k in out["eq"]):
             out["eq"]["same_omd"] = False
         out["wf"] = o.get("wf") is True
